@@ -70,8 +70,8 @@ func runFull(c *fw.Ctx, idx int, r *fw.Rand) {
 	defer quiesce(c, base+1) // the Services notify-merger goroutine lives forever by design
 	defer w.cleanup()
 
-	backend := []string{"mem", "file"}[idx%2]
-	retention := (idx / 2) % 2 // 0 disabled, 1 idle
+	backend := []string{"mem", "file"}[(idx/2)%2]
+	retention := (idx / 4) % 2 // 0 disabled, 1 idle
 	ord := r.Intn(3)           // orderings that need the Start-returned signal first are folded
 	heldLast := r.Chance(1, 2)
 	w.domain = uniqueDomain(r)
@@ -90,7 +90,7 @@ func runFull(c *fw.Ctx, idx int, r *fw.Rand) {
 	if backend == "file" {
 		conf.Storage.Type = "file"
 		conf.Storage.Params = map[string]string{"path": c.TempDir("c19fs")}
-	} else if (idx/4)%2 == 1 {
+	} else if (idx/8)%2 == 1 || idx == 4 {
 		// the memory store with a (generous) size limit runs its enforcer goroutine, which must
 		// keep serving the sessions that finish after the shutdown request
 		conf.Storage.Params = map[string]string{"maxkb": "65536"}
